@@ -10,6 +10,8 @@
 //!   "exit": n                       exit status (default 0)
 //!   "sleep_ms": n                   sleep before exiting
 //!   "steps": [[delay_ms, fd, hex]]  after delay_ms write the bytes to fd 1 / 2 (unbuffered)
+//!   "pre": [[delay_ms, fd, hex, count]]  before the barrier: after delay_ms write the bytes `count` times
+//!   "repeat": [[count, fd, hex]]    after the steps, write the bytes `count` times to fd 1 / 2 (volume)
 //!   "barrier": {"dir": d, "n": k, "timeout_ms": t}
 //!                                   create d/<pid>, wait until d holds >= k entries, else exit 99
 //!   "redirect": true                close stdout/stderr first (task detaches from its pipes)
@@ -118,6 +120,25 @@ fn main() {
         }
     }
 
+    if let Some(pre) = script.get("pre").and_then(|v| v.as_array()) {
+        for st in pre {
+            let delay = st.get(0).and_then(|v| v.as_u64()).unwrap_or(0);
+            let fd = st.get(1).and_then(|v| v.as_u64()).unwrap_or(1);
+            let bytes = unhex(st.get(2).and_then(|v| v.as_str()).unwrap_or(""));
+            let count = st.get(3).and_then(|v| v.as_u64()).unwrap_or(1);
+            if delay > 0 {
+                std::thread::sleep(Duration::from_millis(delay));
+            }
+            let mut out: Box<dyn Write> = if fd == 2 { Box::new(std::io::stderr()) } else { Box::new(std::io::stdout()) };
+            for _ in 0..count {
+                if out.write_all(&bytes).is_err() {
+                    break;
+                }
+            }
+            let _ = out.flush();
+        }
+    }
+
     if let Some(b) = script.get("barrier") {
         let dir = b.get("dir").and_then(|v| v.as_str()).unwrap_or("").to_string();
         let n = b.get("n").and_then(|v| v.as_u64()).unwrap_or(1) as usize;
@@ -155,6 +176,21 @@ fn main() {
                 let _ = out.write_all(&bytes);
                 let _ = out.flush();
             }
+        }
+    }
+
+    if let Some(reps) = script.get("repeat").and_then(|v| v.as_array()) {
+        for r in reps {
+            let count = r.get(0).and_then(|v| v.as_u64()).unwrap_or(0);
+            let fd = r.get(1).and_then(|v| v.as_u64()).unwrap_or(1);
+            let bytes = unhex(r.get(2).and_then(|v| v.as_str()).unwrap_or(""));
+            let mut out: Box<dyn Write> = if fd == 2 { Box::new(std::io::stderr()) } else { Box::new(std::io::stdout()) };
+            for _ in 0..count {
+                if out.write_all(&bytes).is_err() {
+                    break;
+                }
+            }
+            let _ = out.flush();
         }
     }
 
